@@ -1229,4 +1229,73 @@ theorem anti_crossing_clique_unique_ground_state (n : Nat) (b : Bq Label) (h : a
       grind
     · have := clique_gap (k - n / 2) hpart hp; grind
 
+/-! ## `chimera_anticluster`: the weak couplers are exactly the intra-tile edges, for every lattice shape -/
+
+/-- **tile edges, all `m, n, t`**: `_iter_chimera_tile_edges(m, n, t)` yields `(k0, k1)` iff both ends lie in one tile
+    (`row < m`, `col < n`, tile offset `2t·col + n·2t·row`), `k0` in its first shore (`+ a`, `a < t`) and `k1` in its second shore
+    (`+ t + b`, `b < t`): every pair of the two shores of every tile, and nothing else -/
+theorem chimera_tile_edges_iff (m n t : Nat) (ht : 0 < t) (hn : 0 < n) (e : Nat × Nat) :
+    e ∈ chimeraTileEdges m n t ↔
+      ∃ col row a b, col < n ∧ row < m ∧ a < t ∧ b < t
+        ∧ e = (2 * t * col + n * (2 * t) * row + a, 2 * t * col + n * (2 * t) * row + t + b) := by
+  unfold chimeraTileEdges
+  have hh : 0 < 2 * t := by omega
+  have hv : 0 < n * (2 * t) := Nat.mul_pos hn hh
+  simp only [List.mem_flatMap, List.mem_map, mem_rangeStep _ _ _ _ hh, mem_rangeStep _ _ _ _ hv, mem_rangeStep _ _ 1 _ (by omega)]
+  constructor
+  · rintro ⟨i, ⟨col, rfl, hcol⟩, j, ⟨row, rfl, hrow⟩, k0, ⟨a, rfl, ha⟩, k1, ⟨b, rfl, hb⟩, rfl⟩
+    have hcol' : col < n := (mul_lt_iff (2 * t) col n hh).mp (by simpa using hcol)
+    have hi : 0 + 2 * t * col < n * (2 * t) := hcol
+    have hrow' : row < m := (offset_lt_iff _ _ row m hi).mp hrow
+    refine ⟨col, row, a, b, hcol', hrow', by omega, by omega, ?_⟩
+    simp only [Nat.zero_add, Nat.one_mul]
+  · rintro ⟨col, row, a, b, hcol, hrow, ha, hb, rfl⟩
+    have hi : 0 + 2 * t * col < n * (2 * t) := by
+      have := (mul_lt_iff (2 * t) col n hh).mpr hcol; omega
+    refine ⟨0 + 2 * t * col, ⟨col, rfl, hi⟩, 0 + 2 * t * col + n * (2 * t) * row, ⟨row, rfl, (offset_lt_iff _ _ row m hi).mpr hrow⟩,
+      0 + 2 * t * col + n * (2 * t) * row + 1 * a, ⟨a, rfl, by omega⟩,
+      0 + 2 * t * col + n * (2 * t) * row + t + 1 * b, ⟨b, rfl, by omega⟩, ?_⟩
+    simp only [Nat.zero_add, Nat.one_mul]
+
+/-- **inter-tile edges, all `m, n, t`**: `_iter_chimera_intertile_edges(m, n, t)` yields exactly: for every second-shore position
+    `t + a` (`a < t`), every column `col` with a right neighbour (`col + 1 < n`) and every row, the horizontal edge to the same position
+    one tile to the right (`+ 2t`); and for every first-shore position `a < t`, every column and every row with a lower neighbour
+    (`row + 1 < m`), the vertical edge to the same position one tile down (`+ n·2t`) -/
+theorem chimera_intertile_edges_iff (m n t : Nat) (ht : 0 < t) (hn : 0 < n) (e : Nat × Nat) :
+    e ∈ chimeraInterEdges m n t ↔
+      ((∃ a col row, a < t ∧ col + 1 < n ∧ row < m
+          ∧ e = (t + a + 2 * t * col + n * (2 * t) * row, t + a + 2 * t * col + n * (2 * t) * row + 2 * t))
+       ∨ (∃ a col row, a < t ∧ col < n ∧ row + 1 < m
+          ∧ e = (a + 2 * t * col + n * (2 * t) * row, a + 2 * t * col + n * (2 * t) * row + n * (2 * t)))) := by
+  unfold chimeraInterEdges
+  have hh : 0 < 2 * t := by omega
+  have hv : 0 < n * (2 * t) := Nat.mul_pos hn hh
+  simp only [List.mem_append, List.mem_flatMap, List.mem_map, mem_rangeStep _ _ _ _ hh, mem_rangeStep _ _ _ _ hv, mem_rangeStep _ _ 1 _ (by omega)]
+  constructor
+  · rintro (⟨i, ⟨a, rfl, ha⟩, j, ⟨col, rfl, hcol⟩, k, ⟨row, rfl, hrow⟩, rfl⟩ | ⟨i, ⟨a, rfl, ha⟩, j, ⟨col, rfl, hcol⟩, k, ⟨row, rfl, hrow⟩, rfl⟩)
+    · left
+      have hi : t + 1 * a < 2 * t := by omega
+      have hcol' : col + 1 < n := (offset_lt_sub_iff _ _ col n hi).mp hcol
+      have hj : t + 1 * a + 2 * t * col < n * (2 * t) := by omega
+      have hrow' : row < m := (offset_lt_iff _ _ row m hj).mp hrow
+      exact ⟨a, col, row, by omega, hcol', hrow', by simp only [Nat.one_mul]⟩
+    · right
+      have hi : 0 + 1 * a < 2 * t := by omega
+      have hcol' : col < n := (offset_lt_iff _ _ col n hi).mp hcol
+      have hj : 0 + 1 * a + 2 * t * col < n * (2 * t) := hcol
+      have hrow' : row + 1 < m := (offset_lt_sub_iff _ _ row m hj).mp hrow
+      exact ⟨a, col, row, by omega, hcol', hrow', by simp only [Nat.zero_add, Nat.one_mul]⟩
+  · rintro (⟨a, col, row, ha, hcol, hrow, rfl⟩ | ⟨a, col, row, ha, hcol, hrow, rfl⟩)
+    · left
+      have hi : t + 1 * a < 2 * t := by omega
+      have hc := (offset_lt_sub_iff _ _ col n hi).mpr hcol
+      have hj : t + 1 * a + 2 * t * col < n * (2 * t) := by omega
+      exact ⟨t + 1 * a, ⟨a, rfl, by omega⟩, t + 1 * a + 2 * t * col, ⟨col, rfl, hc⟩, t + 1 * a + 2 * t * col + n * (2 * t) * row,
+        ⟨row, rfl, (offset_lt_iff _ _ row m hj).mpr hrow⟩, by simp only [Nat.one_mul]⟩
+    · right
+      have hi : 0 + 1 * a < 2 * t := by omega
+      have hc := (offset_lt_iff _ _ col n hi).mpr hcol
+      exact ⟨0 + 1 * a, ⟨a, rfl, by omega⟩, 0 + 1 * a + 2 * t * col, ⟨col, rfl, hc⟩, 0 + 1 * a + 2 * t * col + n * (2 * t) * row,
+        ⟨row, rfl, (offset_lt_sub_iff _ _ row m hc).mpr hrow⟩, by simp only [Nat.zero_add, Nat.one_mul]⟩
+
 end C17
